@@ -752,7 +752,11 @@ fn apply_fold_specific_filter<'query, AdapterT: Adapter<'query>>(
         let value = match tagged_value {
             TaggedValue::Some(value) => value,
             TaggedValue::NonexistentOptional => {
-                unreachable!("while applying fold-specific filter, the @fold turned out to not exist: {ctx:?}")
+                // The @fold is inside an @optional scope that doesn't exist, so there is no count.
+                // The filter application below lets such contexts through regardless of the value,
+                // like every other filter inside a non-existent @optional scope.
+                debug_assert!(ctx.within_nonexistent_optional());
+                FieldValue::Null
             }
         };
         ctx.values.push(value);
